@@ -25,6 +25,7 @@ class _WFile:
         self.ip, self.path, self.mode, self.kw = ip, path, mode, kw
         self.buf = []
         self.closed = False
+        ip.open_files.append(self)
         ip.effect('create' if 'a' not in mode else 'open-append', path)
         if 'a' not in mode:
             with ip.real_open(path, 'w', **kw):
@@ -78,6 +79,7 @@ class Interpose:
         self.crash_at, self.fault_at, self.partial = crash_at, fault_at, partial
         self.log = []
         self.n = 0
+        self.open_files = []          # a rename of a file that is still open moves the open handle with it (POSIX)
         self.real_open = builtins.open
 
     def inside(self, p):
@@ -114,10 +116,21 @@ class Interpose:
             return real(path, *a, **kw)
         return f
 
+    def _follow(self, src, dst):
+        try:
+            rs = os.path.realpath(os.fspath(src))
+        except TypeError:
+            return
+        for wf in self.open_files:
+            if not wf.closed and os.path.realpath(wf.path) == rs:
+                wf.path = os.fspath(dst)
+
     def _wrap2(self, real, kind):
         def f(src, dst, *a, **kw):
             if self.inside(src) or self.inside(dst):
                 self.effect(kind, dst if self.inside(dst) else src)
+            if kind in ('replace', 'rename'):
+                self._follow(src, dst)
             return real(src, dst, *a, **kw)
         return f
 
@@ -150,6 +163,7 @@ class Interpose:
         def move(src, dst, *a, **kw):
             if self.inside(src) or self.inside(dst):
                 self.effect('move', dst)
+            self._follow(src, dst)
             saved = (os.rename, os.replace)
             os.rename, os.replace = self._real['os.rename'], self._real['os.replace']
             try:
